@@ -441,6 +441,236 @@ let handle_ell id rest =
     end
   end
 
+(* ---- stage LOOP: the real csearch_t / proximity_t / nesterov objects of the mirrored RQB / FPBA loops -------------------------- *)
+(* LI: one outer iteration.  (a) every pass of the curve search through the extracted [cs_pass] (bracket carried by the model, the
+   trial t of the next pass predicted), (b) the whole call through [tape_search] (budget guard, assigned / stale status, calls),
+   (c) the iteration through [tape_rqb_iter] / [tape_fpba_iter] (hand-over to done(), which value the state takes).
+   A pass whose decisive comparison is within the rounding of its threshold makes the call ambiguous: counted, not compared. *)
+let loop_calls = ref 0
+let loop_passes = ref 0
+let loop_iters = ref 0
+let loop_amb = ref 0
+let loop_stale = ref 0
+let loop_long = ref 0
+let loop_budget_exits = ref 0
+let px_checked = ref 0
+let px_amb = ref 0
+let ns_checked = ref 0
+let status_hist = Hashtbl.create 8
+let zi n = B.big_int_of_int n
+let iz z = B.int_of_big_int z
+let rel15 = { qnum = B.unit_big_int; qden = B.big_int_of_string "1000000000000000" }
+let rel12q = { qnum = B.unit_big_int; qden = B.big_int_of_string "1000000000000" }
+let qf s = q_of_float (parse_float s)
+let qmax a b = if qlt a b then b else a
+
+type rpass = { rt : float; ans : cs_ans; fin : bool }
+let parse_pass s =
+  match String.split_on_char ',' s with
+  | [t; fin; fx; fy; e; d; ec; sc; gd; sd] ->
+      let fin = fin = "1" in
+      let fyq = if fin then qf fy else qz in
+      let g x = let v = parse_float x in if Float.is_finite v then q_of_float v else qz in
+      { rt = parse_float t; fin;
+        ans = { a_finite = fin; a_fx = qf fx; a_fy = fyq; a_e = g e; a_delta = g d; a_econv = (ec = "1"); a_sconv = (sc = "1");
+                a_gdot = g gd; a_sdot = g sd } }
+  | _ -> failwith "bad pass"
+
+(* is the comparison  lhs >= rhs  (as exact rationals) within the rounding of the doubles that the code compares? *)
+let near lhs rhs mag = qle (qabs (lhs -/ rhs)) (rel12q */ mag +/ tiny)
+
+(* path-sensitive ambiguity of one pass *)
+let pass_ambiguous (p : cs_params) (tl : q) (tr : q option) (a : cs_ans) : bool =
+  if not a.a_finite then false
+  else if a.a_econv && a.a_sconv then false
+  else begin
+    let d = a.a_delta in
+    let amb1 = near (a.a_fx -/ a.a_fy) (p.p_m1 */ d) (qabs a.a_fx +/ qabs a.a_fy +/ qabs (p.p_m1 */ d)) in
+    if amb1 then true
+    else if cs_m1_test p a then begin
+      let amb2 = near a.a_gdot (qopp p.p_m2 */ d) (qabs a.a_gdot +/ qabs (p.p_m2 */ d)) in
+      if amb2 then true
+      else if cs_m2_test p a then false
+      else if tr <> None then false
+      else if a.a_sconv then false
+      else near a.a_sdot (qopp p.p_m4 */ d) (qabs a.a_sdot +/ qabs (p.p_m4 */ d))
+    end else begin
+      if qlt tl p.p_eps0 then near a.a_e (p.p_m3 */ d) (qabs a.a_e +/ qabs (p.p_m3 */ d)) else false
+    end
+  end
+
+let handle_li id rest =
+  let parts = List.map String.trim (String.split_on_char '|' rest) in
+  let a = kvs (List.nth parts 0) in
+  let solver = get a "solver" in
+  let maxev = int_of_string (get a "maxev") and calls0 = int_of_string (get a "calls0") and cost = int_of_string (get a "cost") in
+  let miu = qf (get a "miu") and stale = int_of_string (get a "stale") and sfx0 = qf (get a "sfx") in
+  let p = { p_m1 = qf (get a "m1"); p_m2 = qf (get a "m2"); p_m3 = qf (get a "m3"); p_m4 = qf (get a "m4"); p_interpol = qf (get a "ip");
+            p_extrapol = qf (get a "ep"); p_eps0 = qf (get a "eps0"); p_cost = zi cost } in
+  let passes = List.map parse_pass (split ';' (List.nth parts 1)) in
+  let b = kvs (List.nth parts 2) in
+  let status = int_of_string (get b "status") and tret = parse_float (get b "t") and calls1 = int_of_string (get b "calls") in
+  let valid = get b "valid" = "1" and ret = get b "ret" = "1" and sstatus = int_of_string (get b "sstatus") and just = get b "just" = "1" in
+  let c = kvs (List.nth parts 3) in
+  let calls2 = int_of_string (get c "calls") and sfx2 = qf (get c "sfx") and miu2 = qf (get c "miu") and moms = get c "mom" in
+  let idk = id ^ " k=" ^ get a "k" in
+  incr total; incr loop_calls;
+  loop_passes := !loop_passes + List.length passes;
+  (* ---- (a) pass by pass ---- *)
+  let amb = ref false and bad = ref false in
+  let tl = ref qz and tr = ref None and tpred = ref (Some q1) in
+  let n = List.length passes in
+  let assigned = ref None in
+  List.iteri (fun i rp ->
+    if (not !amb) && (not !bad) then begin
+      let tq = q_of_float rp.rt in
+      (match !tpred with
+       | Some tm when not (close tm tq (rel12q */ qabs tm)) ->
+           bad := true; report "loop-trial-t" idk (Printf.sprintf "pass=%d model t=%h impl t=%h tL=%h tR=%s" i (float_of_q tm) rp.rt (float_of_q !tl)
+                                                     (match !tr with Some r -> Printf.sprintf "%h" (float_of_q r) | None -> "inf"))
+       | _ -> ());
+      if not !bad then begin
+        if pass_ambiguous p !tl !tr rp.ans then amb := true
+        else match cs_pass p tq !tl !tr rp.ans with
+          | PRet (s, tl', tr') ->
+              tl := tl'; tr := tr';
+              if i <> n - 1 then (bad := true; report "loop-early-exit" idk (Printf.sprintf "pass=%d of %d: the model leaves the loop with status %d, the implementation evaluated again" i n (iz s)))
+              else assigned := Some (iz s)
+          | PCont (t', tl', tr') -> tl := tl'; tr := tr'; tpred := Some t'
+      end
+    end) passes;
+  if !amb then (incr ambiguous; incr loop_amb)
+  else if not !bad then begin
+    (match !assigned with
+     | Some s ->
+         if s <> status then report "loop-status" idk (Printf.sprintf "model assigns %d, implementation returned %d" s status);
+         if not just then report "loop-justified" idk "the harness' oracle says the status is not justified by the last pass, the model assigns it"
+     | None ->
+         (* no status assigned by the last pass: the loop guard must have ended the call, the status is the previous call's *)
+         incr loop_budget_exits;
+         if calls1 < maxev then report "loop-continues" idk (Printf.sprintf "the model goes on after pass %d (calls=%d < max_evals=%d), the implementation returned status %d" n calls1 maxev status)
+         else begin
+           if status <> iz src_c03_cs_st_init then
+             report "loop-budget-exit-status" idk (Printf.sprintf "budget exit: returned %d, the reset value is %d (previous call's m_status %d)" status (iz src_c03_cs_st_init) stale);
+           if just && n > 0 then report "loop-justified" idk "budget exit without assignment in the model, justified for the harness' oracle";
+           (match !tpred with
+            | Some tm when n > 0 && not (close tm (q_of_float tret) (rel12q */ qabs tm)) ->
+                report "loop-trial-t" idk (Printf.sprintf "budget exit: model next t=%h impl m_t=%h" (float_of_q tm) tret)
+            | _ -> ())
+         end);
+    (* ---- (b) the whole call on the tape of its answers (calls of more than 400 passes: pass by pass only -- the exact trial
+       points of thousands of interpolations have numerators of 10^5 bits) ---- *)
+    if n > 400 then incr loop_long else begin
+    let tape0 = { tp_ans = List.map (fun rp -> rp.ans) passes; tp_mom = []; tp_miu = []; tp_short = false } in
+    let r = tape_search p miu (zi maxev) (zi calls0) tape0 in
+    let np = int_of_nat r.r_passes in
+    if r.r_fuel_out then report "loop-fuel" idk "";
+    if r.r_or.tp_short then report "loop-more-passes" idk (Printf.sprintf "the model evaluates more than the %d recorded passes" n)
+    else begin
+      if np <> n then report "loop-passes" idk (Printf.sprintf "model=%d impl=%d" np n);
+      if iz r.r_calls <> calls1 then report "loop-calls" idk (Printf.sprintf "model=%d impl=%d" (iz r.r_calls) calls1);
+      (match r.r_assigned with
+       | Some s -> if iz s <> status then report "loop-search-status" idk (Printf.sprintf "model=%d impl=%d" (iz s) status)
+       | None -> incr loop_stale; if status <> iz src_c03_cs_st_init then report "loop-search-unassigned" idk (Printf.sprintf "impl=%d reset value=%d previous=%d" status (iz src_c03_cs_st_init) stale))
+    end;
+    Hashtbl.replace status_hist status (1 + (try Hashtbl.find status_hist status with Not_found -> 0));
+    (* ---- (c) the outer iteration ---- *)
+    if valid then begin
+      incr loop_iters;
+      let mom = if moms = "-" then [] else (let v = parse_float moms in [if Float.is_finite v then Some (q_of_float v) else None]) in
+      let tape1 = { tape0 with tp_mom = mom; tp_miu = [miu2] } in
+      let s0 = { s_or = tape1; s_calls = zi calls0; s_fx = sfx0; s_miu = miu; s_mstatus = zi stale; s_mt = q1; s_mfy = Some qz } in
+      let out = if solver = "rqb" then tape_rqb_iter p (zi maxev) s0 else tape_fpba_iter p (zi maxev) s0 in
+      (match out with
+       | IDone (s1, z) ->
+           if not ret then report "iter-done" idk (Printf.sprintf "model: done() stops with %d, implementation goes on" (iz z))
+           else if iz z <> sstatus then report "iter-solver-status" idk (Printf.sprintf "model=%d impl=%d" (iz z) sstatus);
+           if not (qeq_bool s1.s_fx sfx2) then report "iter-state-value" idk "done() changed the state value"
+       | INext (s', u) ->
+           if ret then report "iter-done" idk (Printf.sprintf "model goes on, implementation: done() returned true (status %d)" sstatus)
+           else begin
+             if s'.s_or.tp_short then report "iter-tape" idk "the model reads a momentum value the implementation did not produce";
+             if iz s'.s_calls <> calls2 then report "iter-calls" idk (Printf.sprintf "model=%d impl=%d" (iz s'.s_calls) calls2);
+             if not (qeq_bool s'.s_fx sfx2) then
+               report "iter-state-value" idk (Printf.sprintf "status=%d model=%h impl=%h (before %h)" status (float_of_q s'.s_fx) (float_of_q sfx2) (float_of_q sfx0));
+             if not (qeq_bool s'.s_miu miu2) then report "iter-miu" idk (Printf.sprintf "status=%d: miu changed outside a descent step: %h -> %h" status (float_of_q miu) (float_of_q miu2));
+             if u && just then report "iter-unvetted" idk "the model moves on a status not assigned in this call, the harness' oracle finds it justified"
+           end)
+    end
+    end
+  end
+
+let vabs_sum l = List.fold_left (fun acc x -> acc +/ qabs x) qz l
+let handle_px0 id rest =
+  let parts = List.map String.trim (String.split_on_char '|' rest) in
+  let a = kvs (List.nth parts 0) in
+  let lo = qf (get a "lo") and hi = qf (get a "hi") and eps0 = qf (get a "eps0") in
+  let gx = qs_of (List.nth parts 1) and fx = qf (List.nth parts 2) and m0 = qf (List.nth parts 3) in
+  incr total; incr px_checked;
+  let m = prox_miu0 eps0 lo hi gx fx in
+  if not (close m m0 (rel9 */ qabs m)) then report "prox-miu0" id (Printf.sprintf "model=%h impl=%h" (float_of_q m) (float_of_q m0));
+  if qlt m0 lo || qlt hi m0 then propfail "proximity-miu0-outside-range" id (Printf.sprintf "miu0=%h" (float_of_q m0))
+
+let handle_px id rest =
+  let parts = List.map String.trim (String.split_on_char '|' rest) in
+  let a = kvs (List.nth parts 0) in
+  let kind = int_of_string (get a "kind") and t = qf (get a "t") and miu = qf (get a "miu") and mdn = qf (get a "mdn") in
+  let v i = qs_of (List.nth parts i) in
+  let xn = v 1 and xn1 = v 2 and gn = v 3 and gn1 = v 4 and gN = v 5 and gN1 = v 6 in
+  let m1 = qf (List.nth parts 7) in
+  incr total;
+  if not (qlt qz m1) then propfail "proximity-miu-not-positive" id (Printf.sprintf "miu'=%h" (float_of_q m1));
+  let xi = vsub xn1 xn in
+  (* conditioning of one candidate: cancellation in nu and in nu.u *)
+  let cand nu numag =
+    let u = vadd xi (vscale (qdiv t miu) nu) in
+    let nuu = dot nu u in
+    let mag = List.fold_left2 (fun acc (a, am) b -> acc +/ (qabs a +/ am) */ qabs b +/ am */ qabs (qdiv t miu) */ (qabs a +/ am)) qz (List.combine nu numag) u in
+    (nuu, mag) in
+  let nus =
+    if kind = 1 then [ (vsub gn1 gn, List.map2 (fun a b -> qabs a +/ qabs b) gn1 gn) ]
+    else List.concat_map (fun a1 -> List.map (fun a2 ->
+           (prox_nu a1 a2 gn gn1 gN gN1,
+            List.map2 (fun (a, b) (c, d) -> qabs a +/ qabs b +/ qabs c +/ qabs d) (List.combine gn1 gN1) (List.combine gn gN))) [qz; qdiv q1 (q_of_int 2); q1]) [qz; qdiv q1 (q_of_int 2); q1] in
+  let ill = List.exists (fun (nu, numag) ->
+    let (nuu, mag) = cand nu numag in
+    (* the acceptance test nu.u > mdn within rounding, or a quotient that amplifies the rounding beyond 1e-6 *)
+    near nuu mdn (mag */ q_of_int 1000) || (qlt mdn nuu && qlt (nuu */ q_of_int 1000000) (rel9 */ mag */ q_of_int 1000000000))) nus in
+  if ill then (incr ambiguous; incr px_amb)
+  else begin
+    incr px_checked;
+    let m = if kind = 1 then prox_update1 miu mdn t xn xn1 gn gn1 else prox_update2 miu mdn t xn xn1 gn gn1 gN gN1 in
+    if not (close m m1 (rel6 */ qabs m)) then
+      report "prox-update" id (Printf.sprintf "kind=%d model=%h impl=%h (before %h)" kind (float_of_q m) (float_of_q m1) (float_of_q miu))
+  end
+
+let handle_ns id rest =
+  let parts = List.map String.trim (String.split_on_char '|' rest) in
+  let a = kvs (List.nth parts 0) in
+  let two = get a "seq" = "2" and lam = qf (get a "lambda") and r = qf (get a "r") and reset = get a "reset" = "1" in
+  let z = qs_of (List.nth parts 1) and mx = qs_of (List.nth parts 2) and my = qs_of (List.nth parts 3) in
+  let lam1 = qf (List.nth parts 4) and mx1 = qs_of (List.nth parts 5) and lam2 = qf (List.nth parts 6) in
+  incr total; incr ns_checked;
+  (* the witness: what the theorems assume of r (2 lambda <= r), and that it is the square root it stands for *)
+  if not (qle (q_of_int 2 */ lam) r) then propfail "nesterov-witness" id (Printf.sprintf "2*lambda=%h > r=%h" (float_of_q (q_of_int 2 */ lam)) (float_of_q r));
+  let rr = q1 +/ q_of_int 4 */ lam */ lam in
+  if not (close (r */ r) rr (rel15 */ q_of_int 8 */ rr)) then report "nesterov-sqrt" id (Printf.sprintf "r=%h lambda=%h" (float_of_q r) (float_of_q lam));
+  (* direct (model independent): lambda' >= 1, momentum coefficients in [0, 1) *)
+  let al = qdiv (lam -/ q1) lam1 and be = if two then qdiv lam lam1 else qz in
+  if qlt lam1 q1 || qlt al qz || qle q1 al || qlt be qz || qle q1 be then
+    propfail "nesterov-coefficients" id (Printf.sprintf "lambda=%h lambda'=%h alpha=%h beta=%h" (float_of_q lam) (float_of_q lam1) (float_of_q al) (float_of_q be));
+  let s1 = nest_update two r { n_lambda = lam; n_x = mx; n_y = my } z in
+  if not (close s1.n_lambda lam1 (rel15 */ q_of_int 2 */ qabs lam1)) then report "nesterov-lambda" id (Printf.sprintf "model=%h impl=%h" (float_of_q s1.n_lambda) (float_of_q lam1));
+  let i = ref 0 in
+  List.iter2 (fun (xm, xo) (zj, (mxj, myj)) ->
+    let tol = rel12q */ (qabs zj +/ qabs al */ (qabs zj +/ qabs myj) +/ qabs be */ (qabs zj +/ qabs mxj)) in
+    if not (close xm xo tol) then report "nesterov-point" id (Printf.sprintf "i=%d model=%h impl=%h" !i (float_of_q xm) (float_of_q xo));
+    incr i) (List.combine s1.n_x mx1) (List.combine z (List.combine mx my));
+  if not (List.for_all2 qeq_bool s1.n_y z) then report "nesterov-y" id "";
+  let s2 = if reset then nest_reset s1 else s1 in
+  let want = if reset then s2.n_lambda else lam1 in
+  if not (qeq_bool want lam2) then report "nesterov-reset" id (Printf.sprintf "reset=%b model=%h impl=%h" reset (float_of_q want) (float_of_q lam2))
+
 let () =
   let nlines = ref 0 in
   (try
@@ -462,6 +692,17 @@ let () =
           let rest = String.sub line 4 (String.length line - 4) in
           let i = String.index rest ' ' in
           handle_ell (String.sub rest 0 i) (String.sub rest (i + 1) (String.length rest - i - 1))
+        end
+        else if String.length line > 3 && (String.sub line 0 3 = "LI " || String.sub line 0 3 = "PX " || String.sub line 0 3 = "NS ") then begin
+          let rest = String.sub line 3 (String.length line - 3) in
+          let i = String.index rest ' ' in
+          let id = String.sub rest 0 i and r = String.sub rest (i + 1) (String.length rest - i - 1) in
+          (match String.sub line 0 2 with "LI" -> handle_li id r | "PX" -> handle_px id r | _ -> handle_ns id r)
+        end
+        else if String.length line > 4 && String.sub line 0 4 = "PX0 " then begin
+          let rest = String.sub line 4 (String.length line - 4) in
+          let i = String.index rest ' ' in
+          handle_px0 (String.sub rest 0 i) (String.sub rest (i + 1) (String.length rest - i - 1))
         end
         else if String.length line > 2 && String.sub line 0 2 = "D " then begin
           match List.map int_of_string (List.filter (fun t -> t <> "") (String.split_on_char ' ' (String.sub line 2 (String.length line - 2)))) with
@@ -492,5 +733,7 @@ let () =
       | ex -> report "driver-exception" (Printf.sprintf "line %d" !nlines) (Printexc.to_string ex ^ " :: " ^ (if String.length line > 160 then String.sub line 0 160 else line)))
     done
   with End_of_file -> ());
-  Printf.printf "MODEL-DONE checked=%d mismatches=%d ambiguous_skipped=%d amb_solve2=%d amb_conv=%d amb_ell1=%d multistep_states=%d simplex_worst=%h sigma_worst=%h ellipsoid_steps_checked=%d ellipsoid_membership_checked=%d amb_elln=%d ellipsoid_membership_worst=%.17g propfails=%d\n"
+  Printf.printf "MODEL-DONE checked=%d mismatches=%d ambiguous_skipped=%d amb_solve2=%d amb_conv=%d amb_ell1=%d multistep_states=%d simplex_worst=%h sigma_worst=%h ellipsoid_steps_checked=%d ellipsoid_membership_checked=%d amb_elln=%d ellipsoid_membership_worst=%.17g propfails=%d loop_calls=%d loop_passes=%d loop_iters=%d loop_amb=%d loop_stale=%d loop_budget_exits=%d px_checked=%d px_amb=%d ns_checked=%d loop_long_calls_pass_only=%d loop_status_hist=%s\n"
     !total !mism !ambiguous !amb_solve !amb_conv !amb_ell !multi_checked !simplex_worst !sigma_worst !ell_steps !ell_member !amb_elln !ell_worst !propfails
+    !loop_calls !loop_passes !loop_iters !loop_amb !loop_stale !loop_budget_exits !px_checked !px_amb !ns_checked !loop_long
+    (String.concat "," (List.sort compare (Hashtbl.fold (fun k v acc -> Printf.sprintf "%d:%d" k v :: acc) status_hist [])))
